@@ -699,6 +699,12 @@ func (c *c22Exec) restart(n *c22Node) bool {
 		c.must("leader after restart", c22WaitLeader(n.s))
 		c.must("barrier after restart", n.s.Barrier())
 	}
+	// A Store that restarts on its existing database file verifies the file's checksum
+	// in the background and refuses snapshots (and so boots) until that is done; the
+	// history goes on when it is (pacing, like waiting for the leader).
+	for deadline := time.Now().Add(c22Converge); n.s.snapshotCAS.Owner() != "" && time.Now().Before(deadline); {
+		time.Sleep(5 * time.Millisecond)
+	}
 	return true
 }
 
@@ -810,7 +816,15 @@ func c22Run(t *testing.T, r *kit.Run, cs c22Case, in *c22Inputs, base string) ([
 		}
 	}
 	snapshot := func(n *c22Node) {
-		if err := n.s.Snapshot(1); err != nil && err != ErrNothingNewToSnapshot && err != ErrNoWALToSnapshot &&
+		err := n.s.Snapshot(1)
+		// After a restart the Store verifies the checksum of its database file in the
+		// background and refuses snapshots meanwhile ("CAS conflict"): a legitimate
+		// transient refusal, so the request is repeated.
+		for deadline := time.Now().Add(c22Converge); err != nil && strings.Contains(err.Error(), "CAS conflict") && time.Now().Before(deadline); {
+			time.Sleep(20 * time.Millisecond)
+			err = n.s.Snapshot(1)
+		}
+		if err != nil && err != ErrNothingNewToSnapshot && err != ErrNoWALToSnapshot &&
 			!strings.Contains(err.Error(), "wait until the configuration entry") {
 			// a loaded database cannot be said to survive a snapshot that cannot be taken
 			c.obs = append(c.obs, n.role+":snapshot-fails")
